@@ -130,6 +130,23 @@ CLAIMED = {
         "html.parser/parse_qsl as receivers); translator formspec.py. Parameters rather than models: zlib raw DEFLATE, SHA-1, urlparse's "
         "netloc validation. The browser's HTML parser is replaced by the Lean scanner (part of the statement).",
         "DESIGN.md section 6 C14"),
+    "C16": (
+        "Lean 4 theorems over an executable model of the IdP's sign/encrypt pipeline (Entity._response, _encrypt_assertion certificate loop) and of the recipient's decryption (composed with the shared SP model); differential correspondence through real RSA-OAEP/AES via the xmlsec1 stand-in",
+        "Machine-checked proof (Lean 4), 11 obligations: for every call (sign/encrypt flags as arguments or configuration, certificates "
+        "from the request, from metadata or none, advice assertions, pefim) that createAuthnResponse answers, no clear copy of an "
+        "assertion that was to be encrypted (nor of the advice) remains on the wire and the sealed form is addressed to a key of the "
+        "recipient; every well-posed call is answered; signatures are applied in an order in which each still verifies after the later "
+        "operations (sign assertion -> encrypt advice -> encrypt assertion -> sign response) and verify at the receiver; a recipient holding the "
+        "right private key recovers exactly the issued identity, a recipient without it (C16_wrong_key) or a ciphertext/wrapped key with any "
+        "bit changed (C16_corrupt) yields no identity; C16_model_meets_spec: the model satisfies the executable specification for every input. "
+        "Two defects found by this check were repaired in /repo (130fd4d2, 9b391349); their inputs stay in corpus/C16 as regressions. "
+        "Every run sends ~2.1k calls (complete product of flags x certificate sources x key sets x tamper positions, plus random) through the "
+        "real Server.create_authn_response and Saml2Client.parse_authn_request_response; the wire is inspected with xml.etree and a marker "
+        "search, never with pysaml2's own classes; the Lean spec is evaluated on the implementation's observation.",
+        "Trusted: Lean kernel (+leanchecker thorough); propext/Quot.sound/Classical.choice; ideal encryption (a sealed value opens only "
+        "under the matching key term; AES-GCM/RSA-OAEP of the stand-in are real but their strength is assumed); xmlsec1 replaced by the "
+        "stand-in; harness. Response validation after decryption is the shared SP model (C01/C04/C05/C06).",
+        "DESIGN.md section 6 C16"),
     "C17": (
         "Lean 4 proof over an executable model of the attribute converters; tables regenerated from saml2.attributemaps each run (decide +kernel lemmas); exhaustive + random differential correspondence",
         "Machine-checked proof (Lean 4), 17 obligations: for any string type, maps and list lengths the model of from_local/to_/ava_from/"
